@@ -298,8 +298,20 @@ def load (st : Store) (w : World) : Store × World × Res :=
 def newStore (shard : Nat) (wt : Bool) (steps : Nat) : Store :=
   { cfg := { shard := shard, writeThrough := wt, steps := steps }, loc := [], stopped := false }
 
+/-- What the limiter does to a condition it keeps (`<upstream>.state`, reported conditions): `Get` hands out the
+    STORED POINTER, the caller changes spec / status / labels IN PLACE, then calls `Save` with that same pointer.
+    Stored values are immutable here, so the in-place change is an explicit update of the cache that precedes the
+    save (and stays when the save fails): that is what the Go code does. `none`: `Get` answers NotFound. -/
+def edited (st : Store) (k n : Str) (spec status labels : Nat) : Option (Store × Cond) :=
+  match lget k n st.loc with
+  | none => none
+  | some c =>
+    let c' := { c with spec := spec, status := status, labels := labels }
+    some ({ st with loc := lput k c' st.loc }, c')
+
 inductive Op
   | save (k : Str) (c : Cond)
+  | saveStored (k : Str) (n : Str) (spec status labels : Nat)   -- Get; mutate in place; Save(the same pointer)
   | delete (k : Str) (n : Str)
   | deleteUpstream (k : Str) (ord : List (Str × Str))
   | flush (ord : List (Str × Str))
@@ -311,6 +323,10 @@ deriving Repr
 def step (st : Store) (op : Op) (w : World) : Store × World × Res :=
   match op with
   | .save k c => save sh st k c w
+  | .saveStored k n sp stt lb =>
+    match edited st k n sp stt lb with
+    | none => (st, w, .err .notFound)
+    | some (st1, c') => save sh st1 k c' w
   | .delete k n => delete st k n w
   | .deleteUpstream k ord => deleteUpstream st k ord w
   | .flush ord => flush sh st ord w
@@ -345,6 +361,7 @@ def genLocks : Locks :=
     (the mutex is trusted to exclude its holders; `restart` is not a call) -/
 def mayRunInside (L : Locks) (wt : Bool) : Op → Bool
   | .save _ _ => !(L.flush && L.save && wt)
+  | .saveStored _ _ _ _ _ => !(L.flush && L.save && wt)
   | .delete _ _ => !(L.flush && L.delete)
   | .deleteUpstream _ _ => !(L.flush && L.deleteUpstream)
   | .flush _ => !L.flush
